@@ -152,7 +152,17 @@ impl SubscriberAsync {
     /// Async version of [`delete_contained_entities`](crate::subscription::subscriber::Subscriber::delete_contained_entities).
     #[tracing::instrument(skip(self))]
     pub async fn delete_contained_entities(&self) -> DdsResult<()> {
-        todo!()
+        let (reply_sender, reply_receiver) = oneshot();
+        self.dcps_sender()
+            .send(DcpsMail::Subscriber(
+                SubscriberServiceMail::DeleteContainedEntities {
+                    participant_handle: self.participant.get_instance_handle(),
+                    subscriber_handle: self.handle,
+                    reply_sender,
+                },
+            ))
+            .await;
+        reply_receiver.await?
     }
 
     /// Async version of [`set_default_datareader_qos`](crate::subscription::subscriber::Subscriber::set_default_datareader_qos).
